@@ -219,7 +219,35 @@ OrderByColT == << Tmpl("OrderByItem", <<N("Expr", "DdlIdExpr"), ENUM("Dir", <<A(
 WhereNotNullT == << Tmpl("Where", <<T("WHERE"), N("Expr", "IsNotNull")>>) >>
 IsNotNullT == << Tmpl("IsNullExpr", <<N("Left", "DdlIdExpr"), T("IS"), SET("Not", TRUE), T("NOT"), T("NULL")>>) >>
 
+\* ---- focused start symbols: the clause under study is a FREE choice, so a small budget reaches every alternative ----
+FocusT(nt) ==
+  CASE nt = "FE_Arg" -> << Tmpl("CallExpr", <<N("Func", "FuncPath"), T("("), LOPEN("Args"), N0("", "Arg"), LCLOSE, T(")")>>) >>
+    [] nt = "FE_Mod" -> << Tmpl("CallExpr", <<N("Func", "FuncPath"), T("("), L("Args", "ExprArg", ",", 1), N0("NullHandling", "NullHandling"), N0("Having", "HavingModifier"), T(")")>>) >>
+    [] nt = "FD_Col" -> << Tmpl("CreateTable", <<T("CREATE"), KW("TABLE"), N("Name", "DdlPath"), T("("), LOPEN("Columns"),
+                              OPEN("ColumnDef", ""), N("Name", "DdlId"), N0("Type", "SchemaType"), N0("DefaultSemantics", "DefaultSem"), CLOSE, LCLOSE, T(")"),
+                              KW("PRIMARY"), KW("KEY"), T("("), L("PrimaryKeys", "IndexKey", ",", 1), T(")")>>) >>
+    [] nt = "FD_Seq" -> << Tmpl("CreateSequence", <<T("CREATE"), KW("SEQUENCE"), N("Name", "DdlPath"), LOPEN("Params"), N0("", "SeqParam"), N0("", "SeqParam"), LCLOSE, O("Options", "Options")>>) >>
+    [] nt = "FD_Ident" -> << Tmpl("AlterTable", <<KW("ALTER"), KW("TABLE"), N("Name", "DdlPath"), OPEN("AlterColumn", "TableAlteration"), KW("ALTER"), KW("COLUMN"), N("Name", "DdlId"),
+                                OPEN("AlterColumnAlterIdentity", "Alteration"), KW("ALTER"), KW("IDENTITY"), N0("Alteration", "IdentityAlteration"), CLOSE, CLOSE>>) >>
+    [] nt = "FD_PG" -> << Tmpl("CreatePropertyGraph", <<T("CREATE"), KW("PROPERTY"), KW("GRAPH"), N("Name", "DdlId"),
+                             OPEN("PropertyGraphContent", "Content"), OPEN("PropertyGraphNodeTables", "NodeTables"), KW("NODE"), KW("TABLES"),
+                             OPEN("PropertyGraphElementList", "Tables"), T("("), LOPEN("Elements"),
+                             OPEN("PropertyGraphElement", ""), N("Name", "DdlId"), N0("Keys", "PgKeys"), N0("Properties", "PgLabelsOrProps"), CLOSE,
+                             LCLOSE, T(")"), CLOSE, CLOSE, CLOSE>>) >>
+    [] nt = "FD_PGProps" -> << Tmpl("CreatePropertyGraph", <<T("CREATE"), KW("PROPERTY"), KW("GRAPH"), N("Name", "DdlId"),
+                             OPEN("PropertyGraphContent", "Content"), OPEN("PropertyGraphNodeTables", "NodeTables"), KW("NODE"), KW("TABLES"),
+                             OPEN("PropertyGraphElementList", "Tables"), T("("), LOPEN("Elements"),
+                             OPEN("PropertyGraphElement", ""), N("Name", "DdlId"),
+                             OPEN("PropertyGraphLabelAndPropertiesList", "Properties"), LOPEN("LabelAndProperties"),
+                             OPEN("PropertyGraphLabelAndProperties", ""), N0("Label", "PgLabel"), N0("Properties", "PgProps"), CLOSE, LCLOSE, CLOSE, CLOSE,
+                             LCLOSE, T(")"), CLOSE, CLOSE, CLOSE>>) >>
+    [] nt = "FM_Return" -> << Tmpl("Delete", <<KW("DELETE"), T("FROM"), N("TableName", "DmlTablePath"), N("Where", "Where"),
+                                OPEN("ThenReturn", "ThenReturn"), T("THEN"), KW("RETURN"), OPEN("WithAction", "WithAction"), T("WITH"), KW("ACTION"), O("Alias", "AsAliasReq2"), CLOSE,
+                                L("Items", "ReturnItem", ",", 1), CLOSE>>) >>
+    [] OTHER -> <<>>
+
 DDLTemplates(nt) ==
+  IF FocusT(nt) # <<>> THEN FocusT(nt) ELSE
   CASE nt = "DDL" -> DDLT [] nt = "DdlId" -> <<DdlId>> [] nt = "DdlIdExpr" -> <<DdlId>> [] nt = "DdlPath" -> DdlPathT
     [] nt = "Options" -> OptionsT [] nt = "OptionsDef" -> OptionsDefT [] nt = "OptName" -> OptNameT [] nt = "OptValue" -> OptValueT [] nt = "IntLitOnly" -> IntLitOnly
     [] nt = "SchemaItem" -> SchemaItemT [] nt = "SchemaType" -> SchemaTypeT [] nt = "SeqParam" -> SeqParamT [] nt = "DefaultSem" -> DefaultSemT
